@@ -21,6 +21,7 @@ import (
 
 	"github.com/sanonone/kektordb/internal/zzverif/vkit"
 	"github.com/sanonone/kektordb/pkg/core/distance"
+	"github.com/sanonone/kektordb/pkg/core/hnsw"
 	"github.com/sanonone/kektordb/pkg/engine"
 )
 
@@ -733,6 +734,7 @@ func (g *c17Rig) judge(q *c17Req) (c17Verdict, c17Resp) {
 		}
 	case "hit":
 		if got.UpDelta != 0 {
+			g.cs.Attach("cache_index_at_miss", g.cacheDiag(q))
 			g.failf("cache: request within the cache distance of a previously answered one contacted the upstream (%d request(s), status %d, X-Kektor-Cache=%q): %s", got.UpDelta, got.Status, got.CacheHdr, desc)
 		}
 		if got.CacheHdr != "HIT" {
@@ -829,4 +831,37 @@ func (g *c17Rig) invalidate(doc string) (cited, kept int) {
 		}
 	}
 	return cited, kept
+}
+
+// cacheDiag describes what the engine's own search on the cache index returns for q and the
+// node table of that index (witness material for a missed cache hit).
+func (g *c17Rig) cacheDiag(q *c17Req) map[string]any {
+	out := map[string]any{}
+	res, err := g.eng.VSearchWithScores(c17CacheIndex, q.Vec, 10)
+	out["engine_top10_err"] = fmt.Sprint(err)
+	var l []string
+	for _, r := range res {
+		l = append(l, fmt.Sprintf("%s score=%v", r.ID, r.Score))
+	}
+	out["engine_top10"] = l
+	var ents []string
+	cm := g.cacheMetric()
+	for _, en := range g.entries {
+		_, gerr := g.eng.VGet(c17CacheIndex, en.ID)
+		ents = append(ents, fmt.Sprintf("%s removed=%v fresh=%v dist=%.4g vget_err=%v", en.ID, en.Removed, en.Fresh, c17Dist(cm, q.Vec, en.Vec), gerr))
+	}
+	out["model_entries"] = ents
+	if idx, ok := g.eng.DB.GetVectorIndex(c17CacheIndex); ok {
+		if h, ok := idx.(*hnsw.Index); ok {
+			var nodes []string
+			nm, _, _, entry, maxLevel, _, _, _, _, _ := h.SnapshotData()
+			for iid, n := range nm {
+				nodes = append(nodes, fmt.Sprintf("%d %s deleted=%v conns=%v", iid, n.Id, n.Deleted.Load(), n.Connections))
+			}
+			sort.Strings(nodes)
+			out["nodes"] = nodes
+			out["entry_maxlevel"] = fmt.Sprintf("entry=%d maxLevel=%d", entry, maxLevel)
+		}
+	}
+	return out
 }
